@@ -36,3 +36,32 @@ Proof. exact: t_minus_one_blind. Qed.
 End C02.
 Print Assumptions C02_share_on_poly.
 Print Assumptions C02_t_minus_one_blind.
+
+(* ---- FSM side (the hot nodes): plain Coq statements on the model of dkg_proposal_fsm/actions.go ---- *)
+Close Scope ring_scope.
+From Coq Require Import String List NArith ZArith.
+Require Import Fsm.EngineDefs Fsm.Types Fsm.Actions Fsm.Provider Fsm.KeyAgreement.
+
+(* the key-confirmation phase is confirmed - the round goes on to signing-ready - only if every
+   participant of the quorum announced the same group key *)
+Theorem C02_master_keys_must_agree :
+  forall ev p req resp p',
+  action_dkg_validate 3 ev p req = CbOk (ev_dkg_confirmed 3) resp p' ->
+  exists c, p_dkg p = Some c /\
+    forall x y, List.In x (dc_quorum c) -> List.In y (dc_quorum c) -> dp_master (snd x) = dp_master (snd y).
+Proof. exact master_keys_must_agree. Qed.
+Print Assumptions C02_master_keys_must_agree.
+
+(* an announcement makes its participant confirmed only if its public polynomial is the one the
+   node already retains (or none was retained yet, and it is retained now); otherwise the
+   participant is marked with an error - which cancels the round - and the retained polynomial
+   stays: the polynomial a hot node keeps is the one every accepted announcement carried *)
+Theorem C02_accepted_announcement_carries_retained_polynomial :
+  forall p pid key poly created out resp p' c,
+  p_dkg p = Some c ->
+  dkg_confirm 3 p pid key (Some poly) created = CbOk out resp p' ->
+  exists c' d', p_dkg p' = Some c' /\ qget (dc_quorum c') pid = Some d' /\
+     ((dp_status d' = dkg_confirmed 3 /\ dc_pubpoly c' = poly /\ (dc_pubpoly c = 0%N \/ dc_pubpoly c = poly)) \/
+      (dp_status d' = dkg_error 3 /\ dc_pubpoly c' = dc_pubpoly c /\ dc_pubpoly c <> poly)).
+Proof. exact accepted_announcement_carries_retained_polynomial. Qed.
+Print Assumptions C02_accepted_announcement_carries_retained_polynomial.
